@@ -37,3 +37,21 @@ Theorem C14_race_changes_results : ~ (forall ts h s1 s2, complete ts h s1 -> com
   forall i, result (run_schedule s1 (init ts h)) i = result (run_schedule s2 (init ts h)) i).
 Proof. exact drf_premise_needed. Qed.
 Print Assumptions C14_race_changes_results.
+
+(* ---------- the footprints of the CURRENT source (Gen/Effects.v, regenerated every run) ---------- *)
+From Verif Require Import Gen.Effects Proofs.EffectsProofs.
+
+(* the read-only accessors of a URL value, Clone, and resolution against it never write through the receiver *)
+Theorem C14_url_readers_write_nothing_shared : missing_readers = nil /\ readers_writing_receiver = nil.
+Proof. exact (conj (proj1 effects_entry_points_present) effects_readers_pure). Qed.
+Print Assumptions C14_url_readers_write_nothing_shared.
+
+(* no method of a parser or of a profile writes the parser / profile; BasicParser never writes through its base argument *)
+Theorem C14_parsers_immutable : parser_methods_writing_receiver = nil /\ basic_parser_writes_base = false.
+Proof. exact (conj effects_parsers_immutable effects_base_not_written). Qed.
+Print Assumptions C14_parsers_immutable.
+
+(* package-level tables are written by the package initialisers only *)
+Theorem C14_globals_frozen : functions_writing_globals = nil /\ functions_writing_unknown = nil /\ is_fixpoint = true.
+Proof. exact (conj effects_globals_frozen (conj effects_no_unknown effects_fixpoint)). Qed.
+Print Assumptions C14_globals_frozen.
